@@ -3,8 +3,9 @@ EXTENDS PrefixSet, Sequences, Json
 MCLines == ${Lines}
 View == sv
 Obs == [tbl |-> tbl, has |-> {q \in [fam : Fams, x : Addrs] : Contains(tbl, q.fam, q.x)}]
-Emit == PrintT("EDGE " \o ToJson([f |-> sv, a |-> act', t |-> sv', o |-> Obs']))
-EmitInit == PrintT("INIT " \o ToJson([t |-> sv, o |-> Obs]))
+Emit == PrintT("EDGE " \o ToJson([f |-> sv, a |-> act', t |-> sv']))
+StateOut == PrintT("STATE " \o ToJson([s |-> sv, o |-> Obs]))
+EmitInit == PrintT("INIT " \o ToJson([t |-> sv]))
 InitE == Init /\ EmitInit
 \* one line per distinct state: the lines, the stored prefixes and the addresses contained
 CaseOut == PrintT("CASE " \o ToJson([src |-> src, tbl |-> tbl,
